@@ -39,6 +39,7 @@ def gen(W):
     sc["sndbuf_cap"] = W.choice([65536, 300])
     sc["use_poll"] = W.chance(0.3)
     sc["p_partial"] = W.choice([0.0, 0.5])
+    sc["log_socket_errors"] = W.chance(0.6)
     nconn = 1 + W.draw(2, p0=0.8)
     conns = []
     for cid in range(nconn):
@@ -69,7 +70,8 @@ def run_one(tapes, tier, scenario=None):
     res = RunResult()
     res.scenario = sc
     knobs = dict(threads=sc["threads"], channel_request_lookahead=sc["lookahead"], recv_bytes=sc["recv_bytes"],
-                 send_bytes=sc["send_bytes"], asyncore_use_poll=sc["use_poll"], max_request_body_size=5000)
+                 send_bytes=sc["send_bytes"], asyncore_use_poll=sc["use_poll"], max_request_body_size=5000,
+                 log_socket_errors=sc.get("log_socket_errors", True))
     net = NetConfig(sendbuf_len=sc["sendbuf_len"], sndbuf_cap=sc["sndbuf_cap"], p_partial_send=sc["p_partial"])
     sim = Simulation(tapes, knobs=knobs, net=net, sched=sc["sched"], trace=sc["trace"], horizon=60.0)
     k = sim.k
